@@ -17,7 +17,7 @@ junk lists (before/after/between) are encoded as items separated by `\n`: `b` = 
 `c<text>` = comment line `;<text>`.
 -/
 namespace PolyVerif.Driver.C13
-open PolyVerif PolyVerif.Fasta PolyVerif.Spec
+open PolyVerif PolyVerif.Fasta PolyVerif.Spec.FastaSpec
 
 def parseJunks (s : String) : List Junk :=
   if s.isEmpty then [] else
